@@ -711,7 +711,7 @@ func genStageCases(op string) func(g *Gen, tier string, emit func(Case)) {
 		}
 		for _, dc := range directedRoots() {
 			c := Case{"op": op, "desc": dc.d.toJSON(), "directed": dc.name}
-			if tier == "thorough" {
+			if tier == "thorough" || (dc.name == "dir-mtime-sibling" && op == "c07.tar") {
 				c["deep"] = true
 			}
 			emit(c)
